@@ -142,6 +142,18 @@ def solver_params(draw, n, m, iters, cheap=True):
 
 
 @st.composite
+def int_box_recipe(draw, dims=(2, 3, 4, 5), densities=(10,), families=None):
+    """A problem on an integer-valued box whose bounds are handed to the solver as Python int lists or as an
+    integer array (sums lower+upper odd or even, sides not powers of two included)."""
+    rec = draw(problem_recipe(dims=dims, densities=densities, families=families))
+    lo = [float(draw(st.integers(-6, 5))) for _ in range(rec["n"])]
+    hi = [a + float(draw(st.integers(1, 7))) for a in lo]
+    rec = dict(rec, lower=lo, upper=hi)
+    rec["style"] = dict(rec.get("style") or {}, bounds=draw(st.sampled_from(["intlist", "intarray"])))
+    return rec
+
+
+@st.composite
 def start_points(draw, recipe):
     """A start point inside the box (SolverParameters.startPoint), or None in most cases."""
     if draw(st.integers(0, 4)) > 0:
